@@ -6,3 +6,19 @@ package vaxis
 func (vx *Vaxis) VerifC17Cursor() (col int, row int, visible bool) {
 	return vx.cursorNext.col, vx.cursorNext.row, vx.cursorNext.visible
 }
+
+// VerifC17Row returns a copy of the first n cells of a row of the next-frame
+// buffer (what Window.SetCell has written since the last Render).
+func (vx *Vaxis) VerifC17Row(row int, n int) []Cell {
+	if row < 0 || row >= len(vx.screenNext.buf) {
+		return nil
+	}
+	r := vx.screenNext.buf[row]
+	if n > len(r) {
+		n = len(r)
+	}
+	if n < 0 {
+		n = 0
+	}
+	return append([]Cell(nil), r[:n]...)
+}
